@@ -172,6 +172,63 @@ def body(run):
             if r3.exit_code != 0 or not same_json(got_st, exp_st):
                 run.add_violation('stats JSON report differs from the API result', desc, observed=dict(exit=r3.exit_code, json=got_st, api=exp_st),
                                   signature=dict(kind='cli-json', tool='stats'))
+    # ---- several files in one invocation: one JSON entry per file, each the API result for that file
+    g, pair, mbm, nblk = fz.workable_pair(run.work, rng, lambda r: synth.aligned_geom(r, 24), (3, 3), 1, tag='n')
+    pfns = []
+    for mi, mdl in enumerate(['gain', 'gain-offset']):
+        od = run.work / f'multi{mi}'
+        od.mkdir()
+        fz.fuse(pair['src_fn'], pair['ref_fn'], od / 'c.tif', model=mdl, kernel_shape=(3, 3), max_block_mem=1e6, param=True)
+        pfns.append(od / 'c_PARAM.tif')
+    sj = run.work / 'multi_stats.json'
+    r = CliRunner().invoke(hcli.cli, ['stats', str(pfns[0]), str(pfns[1]), '-op', str(sj)])
+    run.count_case(('stats-multi',), True, None)
+    got = json.load(open(sj)) if r.exit_code == 0 and sj.exists() else None
+    exp = {}
+    for pf in pfns:
+        with ParamStats(pf) as ps:
+            exp[str(pf)] = json.loads(json.dumps(jsonable(ps.stats())))
+    if got is None or sorted(got) != sorted(exp) or not all(same_json(got[k2], exp[k2]) for k2 in exp):
+        run.add_violation('stats JSON report differs from the API result', dict(files=[str(p_) for p_ in pfns]),
+                          observed=dict(exit=r.exit_code, json_keys=None if got is None else sorted(got), api_keys=sorted(exp)),
+                          signature=dict(kind='cli-json', tool='stats'))
+    cj = run.work / 'multi_cmp.json'
+    c0, c1 = run.work / 'multi0' / 'c.tif', run.work / 'multi1' / 'c.tif'
+    r = CliRunner().invoke(hcli.cli, ['compare', str(c0), str(c1), str(pair['ref_fn']), '-op', str(cj)])
+    run.count_case(('compare-multi',), True, None)
+    got = json.load(open(cj)) if r.exit_code == 0 and cj.exists() else None
+    exp = {}
+    for cf_ in (c0, c1):
+        with RasterCompare(cf_, pair['ref_fn']) as rc:
+            exp[str(cf_)] = json.loads(json.dumps(jsonable(rc.process())))
+    okm = got is not None and sorted(k2 for k2 in got if k2 != 'Reference') == sorted(exp) and got.get('Reference') == str(pair['ref_fn']) and all(
+        got[k2].keys() == exp[k2].keys() and all(abs(got[k2][b][f] - exp[k2][b][f]) <= 1e-4 * (1 + abs(exp[k2][b][f])) or
+                                                 (math.isnan(got[k2][b][f]) and math.isnan(exp[k2][b][f])) for b in exp[k2] for f in exp[k2][b]) for k2 in exp)
+    if not okm:
+        run.add_violation('compare JSON report differs from the API result', dict(files=[str(c0), str(c1)]),
+                          observed=dict(exit=r.exit_code, json_keys=None if got is None else sorted(got)), signature=dict(kind='cli-json', tool='compare'))
+    # ---- flags that do not show in small outputs (overviews are only built for images of 512 px and more): what the command hands to process()
+    seen = []
+    orig_process = RasterFuse.process
+
+    def spy(self, *a, **kw):
+        seen.append(dict(kw, n_positional=len(a)))
+        return orig_process(self, *a, **kw)
+    RasterFuse.process = spy
+    try:
+        for flags, want in ((['-nbo'], dict(build_ovw=False, overwrite=False)), ([], dict(build_ovw=True, overwrite=False)),
+                            (['-o', '-nbo'], dict(build_ovw=False, overwrite=True)), (['-o'], dict(build_ovw=True, overwrite=True))):
+            od = run.work / ('flags' + ''.join(flags).replace('-', '_'))
+            od.mkdir()
+            del seen[:]
+            r = CliRunner().invoke(hcli.cli, ['fuse', '-od', str(od)] + flags + [str(pair['src_fn']), str(pair['ref_fn'])])
+            run.count_case(('flags', tuple(flags)), True, None)
+            got = {k2: seen[-1].get(k2) for k2 in want} if seen else None
+            if r.exit_code != 0 or got != want:
+                run.add_violation('CLI run differs from the API call with the same settings', dict(args=['fuse'] + flags),
+                                  expected=want, observed=dict(exit=r.exit_code, passed_to_process=got), signature=dict(kind='cli-flags'))
+    finally:
+        RasterFuse.process = orig_process
     # ---- precedence and unknown keys (effective value read back from the FUSE_* tags)
     g, pair, mbm, nblk = fz.workable_pair(run.work, rng, lambda r: synth.aligned_geom(r, 24), (3, 3), 1, tag='m')
     trials = [('upsampling', 'nearest', 'bilinear', 'cubic_spline', '-us'), ('downsampling', 'bilinear', 'nearest', 'average', '-ds'),
